@@ -101,6 +101,19 @@ type knownFinding struct {
 	Property string `json:"property"`
 	What     string `json:"what"`
 	Commit   string `json:"commit,omitempty"`
+	Also     []string `json:"also,omitempty"` // further properties whose checks exercise the same finding
+}
+
+func (k knownFinding) appliesTo(prop string) bool {
+	if k.Property == prop {
+		return true
+	}
+	for _, p := range k.Also {
+		if p == prop {
+			return true
+		}
+	}
+	return false
 }
 
 func loadKnown(path string) map[string]knownFinding {
